@@ -127,3 +127,409 @@ Proof. intros. unfold dops. destruct (dpar s); repeat econstructor. Qed.
 
 Lemma pops_typed : forall s io oth, chain_typed (pops s io oth) (io ++ oth, io) (io ++ oth, io).
 Proof. intros. unfold pops. induction (exps_src s); simpl; repeat econstructor. assumption. Qed.
+
+(** ---------- emit_groups / compile in closed form ---------- *)
+Definition group_out (k : kind) (s : list modifier) (io oth : list hty) : list op * list hty :=
+  match k with
+  | KDagger => (dops s io oth, io)
+  | KPower => (pops s io oth, io)
+  | KControl => (cops s io oth, rev (carrs (ctls_src s)) ++ io)
+  end.
+
+Fixpoint ops_for (order : list kind) (s : list modifier) (io oth : list hty) : list op * list hty :=
+  match order with
+  | [] => ([], io)
+  | k :: r => let o1 := group_out k s io oth in
+              let o2 := ops_for r s (snd o1) oth in (fst o1 ++ fst o2, snd o2)
+  end.
+
+Lemma emit_groups_spec : forall order s io oth,
+  emit_groups order (group s) io oth = Some (ops_for order s io oth).
+Proof.
+  induction order as [|k r IH]; intros s io oth; [reflexivity|].
+  simpl. rewrite emit_group_spec. fold (group_out k s io oth).
+  destruct (group_out k s io oth) as [o1 io1]. simpl. rewrite IH.
+  destruct (ops_for r s io1 oth). reflexivity.
+Qed.
+
+Definition sorted_caps (caps : list cap) := filter linear caps ++ filter cap_copy caps.
+Definition io_of (caps : list cap) := map capty (filter linear (sorted_caps caps)).
+Definition oth_of (caps : list cap) := map capty (filter cap_copy (sorted_caps caps)).
+
+Lemma compile_with_spec : forall order s caps,
+  compile_with order s caps =
+  Some (mkC (sorted_caps caps) (fst (ops_for order s (io_of caps) (oth_of caps)))
+            (rev (map ACtl (ctls_src s)) ++ map ACap (sorted_caps caps))
+            (rev (map ACtl (ctls_src s)) ++ map ACap (filter linear (sorted_caps caps)))).
+Proof.
+  intros. unfold compile_with, sort_caps. rewrite linear_first_true, call_rev_true, unpack_rev_true.
+  fold (sorted_caps caps). fold (io_of caps). fold (oth_of caps).
+  rewrite emit_groups_spec.
+  destruct (ops_for order s (io_of caps) (oth_of caps)) as [o io'] eqn:E.
+  rewrite group_spec. simpl. rewrite all_ctl. reflexivity.
+Qed.
+
+Lemma ops_for_typed : forall order s io oth,
+  chain_typed (fst (ops_for order s io oth)) (io ++ oth, io)
+              (snd (ops_for order s io oth) ++ oth, snd (ops_for order s io oth)).
+Proof.
+  induction order as [|k r IH]; intros s io oth; simpl; [constructor|].
+  eapply chain_app; [|apply IH].
+  destruct k; simpl.
+  - apply dops_typed.
+  - apply pops_typed.
+  - unfold cops. apply cops_typed.
+Qed.
+
+Lemma ops_for_io : forall order s io oth, perm3 order ->
+  snd (ops_for order s io oth) = rev (carrs (ctls_src s)) ++ io.
+Proof.
+  intros order s io oth H. unfold perm3 in H. simpl in H.
+  repeat (destruct H as [<-|H]; [reflexivity|]). contradiction.
+Qed.
+
+(** filters of the sorted captured variables *)
+Lemma filter_filter_neg : forall (l : list cap), filter cap_copy (filter linear l) = [].
+Proof.
+  induction l as [|c l IH]; [reflexivity|]. simpl. unfold linear at 1.
+  destruct (cap_copy c) eqn:E; simpl; [exact IH|]. rewrite E. exact IH.
+Qed.
+Lemma filter_filter_neg' : forall (l : list cap), filter linear (filter cap_copy l) = [].
+Proof.
+  induction l as [|c l IH]; [reflexivity|]. simpl.
+  destruct (cap_copy c) eqn:E; simpl; [|exact IH]. unfold linear at 1. rewrite E. exact IH.
+Qed.
+Lemma filter_idem : forall (f : cap -> bool) l, filter f (filter f l) = filter f l.
+Proof.
+  induction l as [|c l IH]; [reflexivity|]. simpl. destruct (f c) eqn:E; simpl; [rewrite E, IH; reflexivity|exact IH].
+Qed.
+
+Lemma sorted_linear : forall caps, filter linear (sorted_caps caps) = filter linear caps.
+Proof. intro. unfold sorted_caps. rewrite filter_app, filter_idem, filter_filter_neg', app_nil_r. reflexivity. Qed.
+Lemma sorted_copy : forall caps, filter cap_copy (sorted_caps caps) = filter cap_copy caps.
+Proof. intro. unfold sorted_caps. rewrite filter_app, filter_idem, filter_filter_neg. reflexivity. Qed.
+
+Lemma sorted_perm : forall caps, Permutation caps (sorted_caps caps).
+Proof.
+  induction caps as [|c l IH]; [constructor|]. unfold sorted_caps in *. simpl. unfold linear at 1.
+  destruct (cap_copy c); simpl.
+  - apply Permutation_cons_app. exact IH.
+  - constructor. exact IH.
+Qed.
+
+(** ---------- well-typedness of the compiled fragment ---------- *)
+Lemma map_arg_ty_ctl : forall cs, map arg_ty (rev (map ACtl cs)) = rev (carrs cs).
+Proof. intro cs. rewrite <- map_rev, map_map. unfold carrs. rewrite <- map_rev. reflexivity. Qed.
+
+Lemma compile_well_typed : forall order s caps c, perm3 order ->
+  compile_with order s caps = Some c -> well_typed c.
+Proof.
+  intros order s caps c Hp H. rewrite compile_with_spec in H. inversion H; subst; clear H.
+  unfold well_typed. simpl.
+  pose proof (ops_for_typed order s (io_of caps) (oth_of caps)) as T.
+  rewrite (ops_for_io order s _ _ Hp) in T.
+  eexists. split.
+  - unfold body_fty.
+    replace (map (fun c => HTy (cap_ty c)) (sorted_caps caps)) with (io_of caps ++ oth_of caps).
+    2:{ unfold io_of, oth_of. rewrite sorted_linear, sorted_copy. unfold sorted_caps. rewrite map_app. reflexivity. }
+    replace (map (fun c => HTy (cap_ty c)) (filter (fun c => negb (cap_copy c)) (sorted_caps caps))) with (io_of caps) by reflexivity.
+    exact T.
+  - simpl. split.
+    + rewrite map_app, map_arg_ty_ctl, map_map. simpl. rewrite <- app_assoc. f_equal.
+      unfold io_of, oth_of. rewrite sorted_linear, sorted_copy. unfold sorted_caps. rewrite map_app. reflexivity.
+    + rewrite map_app, map_arg_ty_ctl, map_map. reflexivity.
+Qed.
+
+(** ---------- threading ---------- *)
+Lemma filter_arg_linear_ctl : forall l, filter arg_linear (rev (map ACtl l)) = rev (map ACtl l).
+Proof.
+  intro l. rewrite <- map_rev. induction (rev l) as [|c r IH]; [reflexivity|]. simpl. rewrite IH. reflexivity.
+Qed.
+Lemma filter_arg_linear_cap : forall l, filter arg_linear (map ACap l) = map ACap (filter linear l).
+Proof.
+  induction l as [|c r IH]; [reflexivity|]. simpl. unfold linear at 1. destruct (negb (cap_copy c)); simpl; rewrite IH; reflexivity.
+Qed.
+
+Lemma compile_threading : forall order s caps c,
+  compile_with order s caps = Some c ->
+  c_rets c = filter arg_linear (c_args c) /\
+  Permutation (c_args c) (map ACtl (ctls_src s) ++ map ACap caps) /\
+  c_fn_inputs c = filter linear caps ++ filter cap_copy caps.
+Proof.
+  intros order s caps c H. rewrite compile_with_spec in H. inversion H; subst; clear H. simpl.
+  split; [|split].
+  - rewrite filter_app, filter_arg_linear_ctl, filter_arg_linear_cap. reflexivity.
+  - apply Permutation_app.
+    + apply Permutation_sym, Permutation_rev.
+    + apply Permutation_map, Permutation_sym, sorted_perm.
+  - reflexivity.
+Qed.
+
+(** ---------- the algebra ---------- *)
+Lemma me_cons : forall x a b, mequiv a b -> mequiv (x :: a) (x :: b).
+Proof.
+  intros x a b H. induction H.
+  - apply me_refl.
+  - apply me_sym; assumption.
+  - eapply me_trans; eassumption.
+  - rewrite !app_comm_cons. apply me_swap.
+  - rewrite !app_comm_cons. apply me_dd.
+Qed.
+
+Lemma me_app_l : forall l a b, mequiv a b -> mequiv (l ++ a) (l ++ b).
+Proof. induction l; intros; simpl; [assumption|]. apply me_cons. auto. Qed.
+
+Lemma me_app_r : forall l a b, mequiv a b -> mequiv (a ++ l) (b ++ l).
+Proof.
+  intros l a b H. induction H.
+  - apply me_refl.
+  - apply me_sym; assumption.
+  - eapply me_trans; eassumption.
+  - rewrite <- !app_assoc. simpl. apply me_swap.
+  - rewrite <- !app_assoc. simpl. apply me_dd.
+Qed.
+
+Lemma me_move : forall x l r, mequiv (x :: l ++ r) (l ++ x :: r).
+Proof.
+  intros x l r. induction l as [|a l IH]; simpl; [apply me_refl|].
+  eapply me_trans; [apply (me_swap x a [] (l ++ r))|]. simpl. apply me_cons. exact IH.
+Qed.
+
+Lemma me_comm : forall a b, mequiv (a ++ b) (b ++ a).
+Proof.
+  induction a as [|x a IH]; intro b; simpl.
+  - rewrite app_nil_r. apply me_refl.
+  - eapply me_trans; [apply me_cons, IH|]. apply me_move.
+Qed.
+
+Lemma sdpar_app : forall a b, sdpar (a ++ b) = xorb (sdpar a) (sdpar b).
+Proof.
+  induction a as [|x a IH]; intro b; simpl; [destruct (sdpar b); reflexivity|].
+  destruct x; rewrite ?IH; try reflexivity. destruct (sdpar a), (sdpar b); reflexivity.
+Qed.
+
+Lemma mequiv_sound : forall a b, mequiv a b ->
+  sdpar a = sdpar b /\ Permutation (filter nondagger a) (filter nondagger b).
+Proof.
+  intros a b H. induction H.
+  - split; [reflexivity|apply Permutation_refl].
+  - destruct IHmequiv. split; [congruence|apply Permutation_sym; assumption].
+  - destruct IHmequiv1, IHmequiv2. split; [congruence|eapply Permutation_trans; eassumption].
+  - split.
+    + rewrite !sdpar_app. f_equal. destruct x, y; simpl; try reflexivity.
+    + rewrite !filter_app. apply Permutation_app_head. simpl.
+      destruct (nondagger x), (nondagger y); try apply Permutation_refl. apply perm_swap.
+  - split.
+    + rewrite !sdpar_app. simpl. rewrite negb_involutive. reflexivity.
+    + rewrite !filter_app. simpl. apply Permutation_refl.
+Qed.
+
+(** the three groups as stacks *)
+Definition sD (s : list modifier) : list smod := if dpar s then [SDagger] else [].
+Definition sP (s : list modifier) : list smod := map SPower (exps_src s).
+Definition sC (s : list modifier) : list smod := map SControl (ctls_src s).
+
+Lemma norm_equiv : forall s, mequiv (map den_src s) (sD s ++ sP s ++ sC s).
+Proof.
+  induction s as [|m s IH]; [apply me_refl|].
+  simpl map. eapply me_trans; [apply me_cons, IH|].
+  destruct m; unfold sD, sP, sC; simpl.
+  - destruct (dpar s); simpl.
+    + apply (me_dd [] _).
+    + apply me_refl.
+  - rewrite app_assoc.
+    eapply me_trans; [apply me_move|]. rewrite <- app_assoc. apply me_refl.
+  - apply me_move.
+Qed.
+
+(** denotation of the groups *)
+Lemma den_app_nc : forall a b bound l,
+  (forall o, In o a -> op_kind o <> KControl) ->
+  den_ops b bound = Some l ->
+  den_ops (a ++ b) bound =
+  Some (map (fun o => match o with OPower e _ _ => SPower e | _ => SDagger end) a ++ l).
+Proof.
+  induction a as [|o a IH]; intros b bound l Hnc Hb; simpl; [exact Hb|].
+  assert (Ha : forall o', In o' a -> op_kind o' <> KControl) by (intros; apply Hnc; right; assumption).
+  destruct o; simpl.
+  - rewrite (IH b bound l Ha Hb). reflexivity.
+  - rewrite (IH b bound l Ha Hb). reflexivity.
+  - exfalso. apply (Hnc (OControl n io oth)); [left; reflexivity|reflexivity].
+Qed.
+
+Lemma den_cops : forall cs io oth b bound l,
+  den_ops b bound = Some l ->
+  den_ops (fst (emit_controls cs io oth) ++ b) (cs ++ bound) = Some (map SControl cs ++ l).
+Proof.
+  induction cs as [|c cs IH]; intros io oth b bound l Hb; simpl; [exact Hb|].
+  specialize (IH (HArr (arity c) :: io) oth b bound l Hb).
+  destruct (emit_controls cs (HArr (arity c) :: io) oth) as [o io'] eqn:E. simpl in *.
+  rewrite N.eqb_refl, IH. reflexivity.
+Qed.
+
+Lemma den_dops : forall s io oth b bound l, den_ops b bound = Some l ->
+  den_ops (dops s io oth ++ b) bound = Some (sD s ++ l).
+Proof.
+  intros. unfold dops, sD. destruct (dpar s); simpl; [rewrite H; reflexivity|exact H].
+Qed.
+
+Lemma den_pops : forall s io oth b bound l, den_ops b bound = Some l ->
+  den_ops (pops s io oth ++ b) bound = Some (sP s ++ l).
+Proof.
+  intros. unfold pops, sP. induction (exps_src s) as [|e r IH]; simpl; [exact H|]. rewrite IH. reflexivity.
+Qed.
+
+Lemma den_group : forall k s io oth b bound l, den_ops b bound = Some l ->
+  den_ops (fst (group_out k s io oth) ++ b) (match k with KControl => ctls_src s ++ bound | _ => bound end) =
+  Some (match k with KDagger => sD s | KPower => sP s | KControl => sC s end ++ l).
+Proof.
+  intros. destruct k; simpl.
+  - apply den_dops; assumption.
+  - apply den_pops; assumption.
+  - unfold cops, sC. apply den_cops; assumption.
+Qed.
+
+Lemma den_nil : den_ops [] [] = Some [].
+Proof. reflexivity. Qed.
+
+Lemma ops_semantic_with : forall order s caps c, perm3 order ->
+  compile_with order s caps = Some c ->
+  exists l, den_compiled c = Some l /\ mequiv (map den_src s) l.
+Proof.
+  intros order s caps c Hp H. rewrite compile_with_spec in H. inversion H; subst; clear H.
+  unfold den_compiled. simpl.
+  assert (Hb : rev (ctl_args (rev (map ACtl (ctls_src s)) ++ map ACap (sorted_caps caps))) = ctls_src s).
+  { assert (A : forall l r, ctl_args (map ACtl l ++ map ACap r) = l).
+    { induction l as [|x l IH]; intro r; simpl.
+      - induction r; simpl; auto.
+      - rewrite IH. reflexivity. }
+    rewrite <- map_rev, A, rev_involutive. reflexivity. }
+  rewrite Hb. clear Hb.
+  set (io := io_of caps). set (oth := oth_of caps). clearbody io oth.
+  pose proof (norm_equiv s) as N.
+  unfold perm3 in Hp. simpl in Hp.
+  destruct Hp as [<-|[<-|[<-|[<-|[<-|[<-|[]]]]]]]; simpl ops_for; unfold fst, snd;
+    rewrite ?app_nil_r.
+  - (* D P C *)
+    eexists. split.
+    + apply den_dops. apply den_pops.
+      rewrite <- (app_nil_r (cops s io oth)), <- (app_nil_r (ctls_src s)). apply den_cops. apply den_nil.
+    + rewrite app_nil_r. exact N.
+  - (* D C P *)
+    eexists. split.
+    + apply den_dops. rewrite <- (app_nil_r (ctls_src s)). unfold cops. apply den_cops.
+      rewrite <- (app_nil_r (pops _ _ _)). apply den_pops. apply den_nil.
+    + rewrite app_nil_r. eapply me_trans; [exact N|]. apply me_app_l. apply me_comm.
+  - (* P D C *)
+    eexists. split.
+    + apply den_pops. apply den_dops.
+      rewrite <- (app_nil_r (cops s io oth)), <- (app_nil_r (ctls_src s)). apply den_cops. apply den_nil.
+    + rewrite app_nil_r. eapply me_trans; [exact N|]. rewrite !app_assoc. apply me_app_r. apply me_comm.
+  - (* P C D *)
+    eexists. split.
+    + apply den_pops. rewrite <- (app_nil_r (ctls_src s)). unfold cops. apply den_cops.
+      rewrite <- (app_nil_r (dops _ _ _)). apply den_dops. apply den_nil.
+    + rewrite app_nil_r. eapply me_trans; [exact N|]. rewrite (app_assoc (sP s)). apply me_comm.
+  - (* C D P *)
+    eexists. split.
+    + rewrite <- (app_nil_r (ctls_src s)). unfold cops. apply den_cops. apply den_dops.
+      rewrite <- (app_nil_r (pops _ _ _)). apply den_pops. apply den_nil.
+    + rewrite app_nil_r. eapply me_trans; [exact N|]. rewrite app_assoc. apply me_comm.
+  - (* C P D *)
+    eexists. split.
+    + rewrite <- (app_nil_r (ctls_src s)). unfold cops. apply den_cops. apply den_pops.
+      rewrite <- (app_nil_r (dops _ _ _)). apply den_dops. apply den_nil.
+    + rewrite app_nil_r. eapply me_trans; [exact N|].
+      eapply me_trans; [apply me_comm|]. change (map SControl (ctls_src s)) with (sC s).
+      rewrite (app_assoc (sC s)). apply me_app_r. apply me_comm.
+Qed.
+
+(** ---------- arities, exponents, kinds, counts ---------- *)
+Lemma op_arities_app : forall a b, op_arities (a ++ b) = op_arities a ++ op_arities b.
+Proof. induction a as [|o a IH]; intro b; [reflexivity|]. destruct o; simpl; rewrite IH; reflexivity. Qed.
+Lemma op_exps_app : forall a b, op_exps (a ++ b) = op_exps a ++ op_exps b.
+Proof. induction a as [|o a IH]; intro b; [reflexivity|]. destruct o; simpl; rewrite IH; reflexivity. Qed.
+
+Lemma arities_cops : forall cs io oth, op_arities (fst (emit_controls cs io oth)) = map arity cs.
+Proof.
+  induction cs as [|c cs IH]; intros io oth; [reflexivity|]. simpl.
+  specialize (IH (HArr (arity c) :: io) oth).
+  destruct (emit_controls cs (HArr (arity c) :: io) oth). simpl in *. rewrite IH. reflexivity.
+Qed.
+Lemma exps_cops : forall cs io oth, op_exps (fst (emit_controls cs io oth)) = [].
+Proof.
+  induction cs as [|c cs IH]; intros io oth; [reflexivity|]. simpl.
+  specialize (IH (HArr (arity c) :: io) oth).
+  destruct (emit_controls cs (HArr (arity c) :: io) oth). simpl in *. exact IH.
+Qed.
+Lemma kinds_cops : forall cs io oth, map op_kind (fst (emit_controls cs io oth)) = map (fun _ => KControl) cs.
+Proof.
+  induction cs as [|c cs IH]; intros io oth; [reflexivity|]. simpl.
+  specialize (IH (HArr (arity c) :: io) oth).
+  destruct (emit_controls cs (HArr (arity c) :: io) oth). simpl in *. rewrite IH. reflexivity.
+Qed.
+
+Lemma arities_group : forall k s io oth,
+  op_arities (fst (group_out k s io oth)) = match k with KControl => map arity (ctls_src s) | _ => [] end.
+Proof.
+  intros. destruct k; simpl.
+  - unfold dops. destruct (dpar s); reflexivity.
+  - unfold pops. induction (exps_src s); simpl; auto.
+  - apply arities_cops.
+Qed.
+Lemma exps_group : forall k s io oth,
+  op_exps (fst (group_out k s io oth)) = match k with KPower => exps_src s | _ => [] end.
+Proof.
+  intros. destruct k; simpl.
+  - unfold dops. destruct (dpar s); reflexivity.
+  - unfold pops. induction (exps_src s); simpl; [reflexivity|]. rewrite IHl. reflexivity.
+  - apply exps_cops.
+Qed.
+
+Lemma kinds_filter_ctl : forall s, filter (kind_eqb KControl) (map kind_of s) = map (fun _ => KControl) (ctls_src s).
+Proof. induction s as [|m s IH]; [reflexivity|]. destruct m; simpl; rewrite ?IH; reflexivity. Qed.
+Lemma kinds_filter_pow : forall s, filter (kind_eqb KPower) (map kind_of s) = map (fun _ => KPower) (exps_src s).
+Proof. induction s as [|m s IH]; [reflexivity|]. destruct m; simpl; rewrite ?IH; reflexivity. Qed.
+
+Lemma kinds_group : forall k s io oth,
+  map op_kind (fst (group_out k s io oth)) =
+  match k with KDagger => if dpar s then [KDagger] else [] | _ => filter (kind_eqb k) (map kind_of s) end.
+Proof.
+  intros. destruct k; simpl.
+  - unfold dops. destruct (dpar s); reflexivity.
+  - rewrite kinds_filter_pow. unfold pops. rewrite map_map. reflexivity.
+  - rewrite kinds_filter_ctl. apply kinds_cops.
+Qed.
+
+Lemma kinds_ops_for : forall order s io oth,
+  map op_kind (fst (ops_for order s io oth)) = grouped_kinds order s.
+Proof.
+  induction order as [|k r IH]; intros; [reflexivity|].
+  simpl. rewrite map_app, kinds_group, IH. reflexivity.
+Qed.
+
+Lemma arities_ops_for : forall order s io oth, perm3 order ->
+  op_arities (fst (ops_for order s io oth)) = map arity (ctls_src s).
+Proof.
+  intros order s io oth H. unfold perm3 in H. simpl in H.
+  destruct H as [<-|[<-|[<-|[<-|[<-|[<-|[]]]]]]]; simpl ops_for; unfold fst at 1;
+    rewrite !op_arities_app, !arities_group; simpl; rewrite ?app_nil_r; reflexivity.
+Qed.
+
+Lemma exps_ops_for : forall order s io oth, perm3 order ->
+  op_exps (fst (ops_for order s io oth)) = exps_src s.
+Proof.
+  intros order s io oth H. unfold perm3 in H. simpl in H.
+  destruct H as [<-|[<-|[<-|[<-|[<-|[<-|[]]]]]]]; simpl ops_for; unfold fst at 1;
+    rewrite !op_exps_app, !exps_group; simpl; rewrite ?app_nil_r; reflexivity.
+Qed.
+
+Lemma grouped_kinds_length : forall order s, perm3 order ->
+  length (grouped_kinds order s) =
+  (if dpar s then 1 else 0) + length (exps_src s) + length (ctls_src s).
+Proof.
+  intros order s H. unfold perm3 in H. simpl in H.
+  destruct H as [<-|[<-|[<-|[<-|[<-|[<-|[]]]]]]]; unfold grouped_kinds; simpl;
+    rewrite ?app_nil_r, !app_length, kinds_filter_ctl, kinds_filter_pow, !map_length;
+    destruct (dpar s); simpl; lia.
+Qed.
